@@ -179,6 +179,11 @@ struct UnknownSymbolError : public Error {
     Error(location, (boost::format("could not find symbol %s") % name).str()) {}
 };
 
+struct RedeclaredSymbolError : public Error {
+  RedeclaredSymbolError(Location location, std::string name) :
+    Error(location, (boost::format("symbol %s is already declared in this scope") % name).str()) {}
+};
+
 struct NonConstArrayLengthError : public Error {
   NonConstArrayLengthError(Location location, std::string name) :
     Error(location, (boost::format("array %s length is not constant") % name).str()) {}
@@ -1741,8 +1746,13 @@ class SymbolTable {
   std::map<SymbolID, std::unique_ptr<Symbol>> symbolMap;
 
 public:
-  void insert(SymbolIDRef identifier, std::unique_ptr<Symbol> symbol) {
+  /// Insert a symbol, and throw an exception if the scope already has one of that name
+  /// (replacing it would leave earlier references to the old symbol and its frame dangling).
+  void insert(SymbolIDRef identifier, std::unique_ptr<Symbol> symbol, const Location &location) {
     //std::cout << "insert " << identifier.first << ", " << identifier.second <<"\n";
+    if (symbolMap.find(identifier) != symbolMap.end()) {
+      throw RedeclaredSymbolError(location, identifier.second);
+    }
     symbolMap[identifier] = std::move(symbol);
   }
 
@@ -1776,35 +1786,43 @@ public:
   void visitPre(Proc &proc) {
     auto symbolType = proc.isFunction() ? SymbolType::FUNC : SymbolType::PROC;
     symbolTable.insert(std::make_pair(getCurrentScope(), proc.getName()),
-                       std::make_unique<Symbol>(symbolType, &proc, getCurrentScope(), proc.getName()));
+                       std::make_unique<Symbol>(symbolType, &proc, getCurrentScope(), proc.getName()),
+                       proc.getLocation());
   }
   void visitPre(ArrayDecl &decl) {
     symbolTable.insert(std::make_pair(getCurrentScope(), decl.getName()),
-                       std::make_unique<Symbol>(SymbolType::ARRAY, &decl, getCurrentScope(), decl.getName()));
+                       std::make_unique<Symbol>(SymbolType::ARRAY, &decl, getCurrentScope(), decl.getName()),
+                       decl.getLocation());
   }
   void visitPre(VarDecl &decl) {
     symbolTable.insert(std::make_pair(getCurrentScope(), decl.getName()),
-                       std::make_unique<Symbol>(SymbolType::VAR, &decl, getCurrentScope(), decl.getName()));
+                       std::make_unique<Symbol>(SymbolType::VAR, &decl, getCurrentScope(), decl.getName()),
+                       decl.getLocation());
   }
   void visitPre(ValDecl &decl) {
     symbolTable.insert(std::make_pair(getCurrentScope(), decl.getName()),
-                       std::make_unique<Symbol>(SymbolType::VAL, &decl, getCurrentScope(), decl.getName()));
+                       std::make_unique<Symbol>(SymbolType::VAL, &decl, getCurrentScope(), decl.getName()),
+                       decl.getLocation());
   }
   void visitPre(ValFormal &formal) {
     symbolTable.insert(std::make_pair(getCurrentScope(), formal.getName()),
-                       std::make_unique<Symbol>(SymbolType::VAL, &formal, getCurrentScope(), formal.getName()));
+                       std::make_unique<Symbol>(SymbolType::VAL, &formal, getCurrentScope(), formal.getName()),
+                       formal.getLocation());
   }
   void visitPre(ArrayFormal &formal) {
     symbolTable.insert(std::make_pair(getCurrentScope(), formal.getName()),
-                       std::make_unique<Symbol>(SymbolType::ARRAY, &formal, getCurrentScope(), formal.getName()));
+                       std::make_unique<Symbol>(SymbolType::ARRAY, &formal, getCurrentScope(), formal.getName()),
+                       formal.getLocation());
   }
   void visitPre(ProcFormal &formal) {
     symbolTable.insert(std::make_pair(getCurrentScope(), formal.getName()),
-                       std::make_unique<Symbol>(SymbolType::PROC, &formal, getCurrentScope(), formal.getName()));
+                       std::make_unique<Symbol>(SymbolType::PROC, &formal, getCurrentScope(), formal.getName()),
+                       formal.getLocation());
   }
   void visitPre(FuncFormal &formal) {
     symbolTable.insert(std::make_pair(getCurrentScope(), formal.getName()),
-                       std::make_unique<Symbol>(SymbolType::FUNC, &formal, getCurrentScope(), formal.getName()));
+                       std::make_unique<Symbol>(SymbolType::FUNC, &formal, getCurrentScope(), formal.getName()),
+                       formal.getLocation());
   }
 };
 
